@@ -59,15 +59,29 @@ type Session struct {
 	Conn   *FuncConn
 	Client *smtp.Client
 	Lines  []string // lines received after the EHLO exchange
-	onLine func(line string) string
+	// HelloLines is the number of EHLO/HELO lines the server saw
+	HelloLines int
+	onLine     func(line string) string
 }
 
 // NewSession connects a client to a scripted server and completes the EHLO exchange.
 func NewSession(host string, caps []string, onLine func(line string) string) (*Session, error) {
+	return NewSessionHello(host, caps, onLine, "e")
+}
+
+// NewSessionHello is NewSession with a choice of how the hello exchange happens: "e" = the harness calls
+// Client.Hello before handing the client out; "i" = no explicit hello: the first command method (e.g. Auth) performs
+// the implicit EHLO; "h" = as "i" but the server rejects EHLO (502) so the client falls back to HELO.
+// HelloLines counts the EHLO/HELO lines seen (their log records precede those of the command).
+func NewSessionHello(host string, caps []string, onLine func(line string) string, mode string) (*Session, error) {
 	s := &Session{onLine: onLine}
 	inHello := true
 	s.Conn = NewFuncConn("220 "+host+" ESMTP\r\n", func(line string) string {
-		if inHello && (strings.HasPrefix(line, "EHLO") || strings.HasPrefix(line, "HELO")) {
+		if inHello && strings.HasPrefix(line, "EHLO") {
+			s.HelloLines++
+			if mode == "h" {
+				return "502 5.5.1 command not implemented\r\n"
+			}
 			var b strings.Builder
 			b.WriteString("250-" + host + "\r\n")
 			for _, c := range caps {
@@ -76,6 +90,11 @@ func NewSession(host string, caps []string, onLine func(line string) string) (*S
 			b.WriteString("250 OK\r\n")
 			return b.String()
 		}
+		if inHello && strings.HasPrefix(line, "HELO") {
+			s.HelloLines++
+			return "250 " + host + "\r\n"
+		}
+		inHello = false
 		s.Lines = append(s.Lines, line)
 		return s.onLine(line)
 	})
@@ -83,10 +102,12 @@ func NewSession(host string, caps []string, onLine func(line string) string) (*S
 	if err != nil {
 		return nil, err
 	}
-	if err := c.Hello("localhost"); err != nil {
-		return nil, err
+	if mode == "e" {
+		if err := c.Hello("localhost"); err != nil {
+			return nil, err
+		}
+		inHello = false
 	}
-	inHello = false
 	s.Client = c
 	return s, nil
 }
